@@ -104,3 +104,55 @@ def strings(alpha, maxlen):
     for n in range(maxlen + 1):
         for t in itertools.product(alpha, repeat=n):
             yield ''.join(t)
+
+
+# ---- C08: reference traversal, written from the property statement, for trees WITHOUT followed links (links are leaves)
+def parse_tree(lines):
+    """lines of the driver's tree dump `path kind mode owner extra` -> {path: kind}"""
+    t = {}
+    for l in lines:
+        f = l.split(' ')
+        if len(f) >= 2 and f[0].startswith('/'):
+            t[f[0]] = f[1]
+    return t
+
+
+def children(tree, p):
+    pre = p.rstrip('/') + '/'
+    return [q for q in tree if q != p and q.startswith(pre) and '/' not in q[len(pre):]]
+
+
+def walk_ref(tree, root, dirs=False, files=False, contents_first=False, sort=False, dirs_first=False, files_first=False, min_depth=0, max_depth=10**9, suffix=None):
+    """The sequence entries(root) with these options must yield (follow = false).  Unsorted listings come back as a list whose
+    sibling order is unspecified: compare with same_up_to_sibling_order."""
+    def keep(p, depth):
+        if depth < min_depth:
+            return False
+        k = tree[p]
+        if files and k != 'f':
+            return False
+        if dirs and not files and k != 'd':
+            return False
+        if suffix is not None and not p.endswith(suffix):
+            return False
+        return True
+
+    def name(p):
+        return p.rsplit('/', 1)[1]
+
+    def rec(p, depth):
+        me = [p] if keep(p, depth) else []
+        inner = []
+        if tree[p] == 'd' and depth < max_depth:
+            kids = children(tree, p)
+            if sort or dirs_first or files_first:
+                kids = sorted(kids, key=name)
+                if dirs_first:
+                    kids = [k for k in kids if tree[k] == 'd'] + [k for k in kids if tree[k] != 'd']
+                elif files_first:
+                    kids = [k for k in kids if tree[k] != 'd'] + [k for k in kids if tree[k] == 'd']
+            for k in kids:
+                inner += rec(k, depth + 1)
+            return inner + me if contents_first else me + inner
+        return me
+    return rec(root, 0)
